@@ -24,7 +24,9 @@ import (
 // the module's loaded packages in sorted order, flagged direct iff requested;
 // the sum table has an entry for every local package.
 func Verif_C13_Imports(n int) {
-	names := []string{"pa", "pb", "pc", "pd"}[:n]
+	all := []string{"pa", "pb", "pc", "pd", "pe"}
+	verifsym.Assume(n <= len(all))
+	names := all[:n]
 	mod := "example.com/m"
 	edge := make([][]bool, n)
 	for i := range edge {
